@@ -1633,7 +1633,12 @@ impl World {
             }
             // C02
             let rr = self.r as u64;
-            if key_adding && (dh > rr + 2 || da > 1) {
+            // (an entry chain is several API calls: each of its inserting calls has the bound to itself)
+            let n_ins: u64 = match op {
+                Op::Entry { steps, .. } => (steps.iter().filter(|s| matches!(s, Step::Insert(..) | Step::OrInsert(..) | Step::VacInsert(..))).count() as u64).max(1),
+                _ => 1,
+            };
+            if key_adding && (dh > n_ins * (rr + 2) || da > n_ins) {
                 self.fail(&["C02"], format!("key-adding call did {dh} hashes / {da} allocations"));
             }
             if readonly && matches!(op, Op::Get { .. } | Op::GetMut { .. } | Op::Remove { .. } | Op::Insert { .. }) && (dh > 1 || da > 0) {
@@ -1642,7 +1647,7 @@ impl World {
             if key_adding || readonly {
                 if let (Some(p), Some((l1, ..))) = (&pre, po.old) {
                     if let Some((l0, ..)) = p.old {
-                        if l0 >= l1 && l0 - l1 > self.r + 1 {
+                        if l0 >= l1 && l0 - l1 > (n_ins as usize) * (self.r + 1) {
                             self.fail(&["C02"], format!("one call took {} elements out of the old table", l0 - l1));
                         }
                     }
